@@ -292,7 +292,7 @@ def _write_safe(ctx):
     facts = N.must_facts(graph, nz)
     for node in graph.nodes:
         if removes(node):
-            mine = [N.show(f) for f in facts[node]
+            mine = [N.show(f) for f in N.raw_only(facts[node])
                     if not (f.key[0] == 'is' and not f.key[3] and
                             f.key[1] == tmp and f.key[2] == 'None') and
                     not (f.key[0] == 'truth' and f.key[1] == tmp) and
